@@ -2,8 +2,10 @@ package checks
 
 import (
 	"fmt"
+	"strings"
 
 	"github.com/cloudwego/gopkg/protocol/thrift"
+	"github.com/cloudwego/gopkg/protocol/thrift/base"
 )
 
 // Inputs that live on the goroutine stack.  A caller may well decode from a local array (a small receive buffer, a
@@ -88,4 +90,97 @@ func onFreshStack(pad int, f func()) {
 	if pnc != nil {
 		panic(pnc)
 	}
+}
+
+// ---- FastRead of the shipped structs on stack-held input ----
+
+//go:noinline
+func baseFromStack(in []byte, cut int) (x base.Base, n int, err error) {
+	var buf [512]byte
+	copy(buf[:], in)
+	n, err = x.FastRead(buf[:cut])
+	return
+}
+
+//go:noinline
+func baseRespFromStack(in []byte, cut int) (x base.BaseResp, n int, err error) {
+	var buf [512]byte
+	copy(buf[:], in)
+	n, err = x.FastRead(buf[:cut])
+	return
+}
+
+//go:noinline
+func excFromStack(in []byte, cut int) (x *thrift.ApplicationException, n int, err error) {
+	var buf [512]byte
+	copy(buf[:], in)
+	x = thrift.NewApplicationException(0, "")
+	n, err = x.FastRead(buf[:cut])
+	return
+}
+
+// fastReadOnStack decodes in[:cut] (cut = len(in) and len(in)-1) from a local array of a fresh goroutine and from an
+// exact-size heap copy and returns a description of the first difference ("" if none, or if in does not fit).
+func fastReadOnStack(kind string, in []byte) string {
+	if len(in) > 512 || len(in) == 0 {
+		return ""
+	}
+	render := func(kind string, cut int, stack bool, pad int) (out string) {
+		run := func() {
+			src := in
+			if !stack {
+				src = append(make([]byte, 0, cut), in[:cut]...)
+			}
+			switch kind {
+			case "base":
+				var x base.Base
+				var n int
+				var err error
+				if stack {
+					x, n, err = baseFromStack(in, cut)
+				} else {
+					n, err = x.FastRead(src[:cut])
+				}
+				out = fmt.Sprintf("n=%d ok=%v %q %q %q %v", n, err == nil, x.LogID, x.Caller, x.Addr, len(x.Extra))
+			case "baseresp":
+				var x base.BaseResp
+				var n int
+				var err error
+				if stack {
+					x, n, err = baseRespFromStack(in, cut)
+				} else {
+					n, err = x.FastRead(src[:cut])
+				}
+				out = fmt.Sprintf("n=%d ok=%v %q %d %v", n, err == nil, x.StatusMessage, x.StatusCode, len(x.Extra))
+			default:
+				x := thrift.NewApplicationException(0, "")
+				var n int
+				var err error
+				if stack {
+					x, n, err = excFromStack(in, cut)
+				} else {
+					n, err = x.FastRead(src[:cut])
+				}
+				out = fmt.Sprintf("n=%d ok=%v %q %d", n, err == nil, x.Msg(), x.TypeID())
+			}
+			if strings.Contains(out, "ok=false") {
+				out = out[:strings.Index(out, "ok=false")+8] // on failure only the verdict is compared
+			}
+		}
+		if stack {
+			onFreshStack(pad, run)
+		} else {
+			run()
+		}
+		return
+	}
+	for _, cut := range []int{len(in), len(in) - 1} {
+		want := render(kind, cut, false, 0)
+		for _, pad := range []int{0, 3, 11} {
+			if got := render(kind, cut, true, pad); got != want {
+				return fmt.Sprintf("decoding the first %d of %d bytes from a local array (goroutine stack, %d frames in use) gives [%s], from a heap copy of the same bytes [%s]", cut, len(in), pad, got, want)
+			}
+		}
+	}
+	return ""
 }
